@@ -1000,6 +1000,12 @@ add_mul_float(Type& to, const Type x, const Type y, Rounding_Dir dir) {
     return assign_nan<To_Policy>(to, V_INF_MUL_ZERO);
   }
   // FIXME: missing check_inf_add_inf
+  // An infinite accumulator absorbs any finite product: the product must not
+  // be computed, as its rounding may overflow to the opposite infinity
+  // (giving NaN) or raise the inexact flag.
+  if (is_inf_float<To_Policy>(to) && x - x == 0 && y - y == 0) {
+    return V_EQ;
+  }
   prepare_inexact<To_Policy>(dir);
   if (fpu_direct_rounding(dir)) {
     to = multiply_add(x, y, to);
@@ -1035,6 +1041,10 @@ sub_mul_float(Type& to, const Type x, const Type y, Rounding_Dir dir) {
     return assign_nan<To_Policy>(to, V_INF_MUL_ZERO);
   }
   // FIXME: missing check_inf_add_inf
+  // An infinite accumulator absorbs any finite product (see add_mul_float).
+  if (is_inf_float<To_Policy>(to) && x - x == 0 && y - y == 0) {
+    return V_EQ;
+  }
   prepare_inexact<To_Policy>(dir);
   if (fpu_direct_rounding(dir)) {
     to = multiply_add(x, -y, to);
